@@ -839,7 +839,7 @@ class Interp:
                 return v
             if name == "__class__":
                 return obj.cls
-            if obj.payload is not None:
+            if obj.payload is not None and hasattr(str, name):
                 return Special("strmethod", obj.payload, name)
             if k is None:
                 raise Raised(AttributeError(f"{obj.cls.__name__}.{name}"))
